@@ -148,7 +148,7 @@ func konly(r *hx.Rand, b base) Scenario {
 		case 0:
 			// a failing expression: its side effects on the parser stay
 			bad := append([]SpecT(nil), b.exprs[i]...)
-			bad = append(bad, hx.Pick(r, []SpecT{{Key: ".config", Order: "fixed", Fixed: []string{"a"}}, {Key: ".unit", Order: "first"}, {Key: "", Order: "first"}}))
+			bad = append(bad, hx.Pick(r, []SpecT{{Key: ".config", Order: "fixed", Fixed: []string{"a"}}, {Key: ".unit", Order: "first"}, {Key: "", Order: "first"}, {Key: "k0", Order: "fixed"}}))
 			sc.Ops = append(sc.Ops, Op{Kind: 'P', Specs: bad})
 			sc.Tags = append(sc.Tags, "parseerr")
 			continue
